@@ -569,8 +569,11 @@ class Engine:
         self.incomplete = []
 
     # ---- per run state
+    keep_forced = False
+
     def _reset_run(self, prefix):
         self.prefix = list(prefix)
+        self._npre = len(prefix)
         self.pos = 0
         self.path = []
         self.side = []
@@ -706,16 +709,20 @@ class Engine:
                 self.stats.pruned += 1
             else:
                 raise Abort("infeasible")
+        forced_now = self.prefix[self.pos][1] is True and self.prefix[self.pos][2] is None
         self.pos += 1
         c = cond if d else z3.Not(cond)
+        if forced_now and not self.keep_forced:
+            # the other side was proved infeasible: c is implied by assumptions + path, adding it would only bloat the queries
+            return d
         self.path.append(c)
         # keep the cached model only if it still satisfies the path
         if self.model is not None and self._holds_in_model(c) is not True:
             self.model = None
         return d
 
-    def concretize(self, t, what="index"):
-        """fork over the feasible concrete values of an Int term"""
+    def concretize(self, t, what="index", candidates=None):
+        """fork over the feasible concrete values of an Int term (candidates: the declared finite range, if known)"""
         t = z3.simplify(t)
         if z3.is_int_value(t):
             return t.as_long()
@@ -728,18 +735,34 @@ class Engine:
                     raise Abort("max depth")
                 # pick a candidate value
                 mv = None
-                if self.model is not None and all(self._holds_in_model(t != x) is True for x in tried):
-                    mv = self.model.eval(t, model_completion=True)
-                else:
-                    r = self.check_sat([])
-                    if r == "sat":
-                        mv = self.model.eval(t, model_completion=True)
-                    elif r == "unsat":
+                if candidates is not None:
+                    rest = [c for c in candidates if c not in tried]
+                    if not rest:
                         raise Abort("infeasible")
-                if mv is None or not z3.is_int_value(mv):
-                    raise NotEncodable("cannot concretize %s" % what)
-                v = mv.as_long()
-                other = self._feasible(t != v)
+                    v = None
+                    for c in rest:
+                        if self._feasible(t == c):
+                            v = c
+                            break
+                        tried.append(c)
+                        self.path.append(t != c)
+                    if v is None:
+                        raise Abort("infeasible")
+                    later = [c for c in rest if c != v and c not in tried]
+                    other = bool(later)
+                else:
+                    if self.model is not None and all(self._holds_in_model(t != x) is True for x in tried):
+                        mv = self.model.eval(t, model_completion=True)
+                    else:
+                        r = self.check_sat([])
+                        if r == "sat":
+                            mv = self.model.eval(t, model_completion=True)
+                        elif r == "unsat":
+                            raise Abort("infeasible")
+                    if mv is None or not z3.is_int_value(mv):
+                        raise NotEncodable("cannot concretize %s" % what)
+                    v = mv.as_long()
+                    other = self._feasible(t != v)
                 if other:
                     d, forced = True, False
                     self.stats.forks += 1
@@ -794,7 +817,7 @@ class Engine:
                 for i in range(npre, len(self.prefix)):
                     d, forced, v = self.prefix[i]
                     if not forced:
-                        work.append(self.prefix[:i] + [(False, True, v)])
+                        work.append(self.prefix[:i] + [(False, "flip", v)])
                 pr = PathResult(list(self.prefix), list(self.path), list(self.side), list(self.assume), ret, status, err)
                 pr.inputs = dict(self.inputs)
                 pr.denoms = list(self.denoms)
@@ -817,7 +840,7 @@ class PathResult:
         self.err = err
 
     def signature(self):
-        return "".join(("T" if d else "F") if v is None else ("[%s%d]" % ("=" if d else "!", v)) for d, f, v in self.prefix if not f)
+        return "".join(("T" if d else "F") if v is None else ("[%s%d]" % ("=" if d else "!", v)) for d, f, v in self.prefix if f is not True)
 
 
 # ---------------------------------------------------------------------------------------------
